@@ -261,12 +261,15 @@ def op_am(d, o):
     if d.get('multi'):
         # both outlets are MultiStreams (the `('l', ID)` keys of the code): the moisture chemical in the liquid,
         # every other chemical alternately in the solid / liquid row
-        def mkms(fl):
+        def mkms(fl, k_solid=0.0):
             ms = tmo.MultiStream(None, phases='ls', thermo=THERMO[n])
             ms.imol['l'] = np.array([x if (i == k or i % 2 == 0) else 0.0 for i, x in enumerate(fl)], float)
             ms.imol['s'] = np.array([0.0 if (i == k or i % 2 == 0) else x for i, x in enumerate(fl)], float)
+            if k_solid:          # part of the moisture chemical is held outside the liquid phase (fixes_proposed/C20-9.md)
+                ms.imol['l', CHEMS[k]] = fl[k] - k_solid
+                ms.imol['s', CHEMS[k]] = k_solid
             return ms
-        r, p = mkms(R0), mkms(P0)
+        r, p = mkms(R0, d.get('k_solid') or 0.0), mkms(P0)
         solid0 = ([float(x) for x in r.imol['s'].to_array()], [float(x) for x in p.imol['s'].to_array()])
     ID = None if mode == 'mol' else CHEMS[k]
     line = (f'am n={n} R={V(R0)} P={V(P0)} MW={V(MW)} k={k} mode={mode} mwc={frac(MW_WATER_LITERAL)} mc={frac(mc)} '
@@ -291,7 +294,10 @@ def op_am(d, o):
         o.tags.append('am:multistream')
         if ([float(x) for x in r.imol['s'].to_array()], [float(x) for x in p.imol['s'].to_array()]) != solid0:
             o.fail('adjust_moisture:solid-row-changed', 'the solid rows of the MultiStream outlets were modified')
-    check_balance(o, 'adjust_moisture', [a + b for a, b in zip(R0, P0)], [R1, P1], f'(strict={strict})')
+    # a distinct signature for the class of C20-9 (moisture chemical partly outside the liquid phase of the retentate)
+    opn = 'adjust_moisture:moisture-outside-liquid' if d.get('k_solid') else 'adjust_moisture'
+    if d.get('k_solid'): o.tags.append('am:moisture-outside-liquid')
+    check_balance(o, opn, [a + b for a, b in zip(R0, P0)], [R1, P1], f'(strict={strict})')
     check_nonneg(o, 'adjust_moisture', [R1, P1], f'(strict={strict})')
     if avail < required - margin and strict in (None, True):
         o.fail('adjust_moisture:infeasibility-not-reported', f'only {avail!r} kg of {CHEMS[k]} available, {required!r} required, strict={strict}, but no InfeasibleRegion')
@@ -299,7 +305,7 @@ def op_am(d, o):
         mass = [MW[i] * R1[i] for i in range(n)]
         got = mass[k] / sum(mass)
         if not near(got, mc):
-            o.fail('adjust_moisture:moisture-not-reached', f'retentate moisture fraction is {got!r}, requested {mc!r}')
+            o.fail(opn + ':moisture-not-reached', f'retentate moisture fraction is {got!r}, requested {mc!r}')
         o.nontrivial = True
     o.tags.append('am:' + mode + (':clip' if avail < required - margin else ''))
 
@@ -379,17 +385,20 @@ def op_pt(d, o):
     n, ids, K, topc, botc, strict = d['n'], d['ids'], d['K'], d['topc'], d['botc'], bool(d['strict'])
     feed0 = list(d['feed'])
     alias = None if d.get('only_fraction') else d.get('alias')
-    kw = {}
-    if topc: kw['top_chemicals'] = as_rep(names(n, topc), d.get('rep_f'))
-    if botc: kw['bottom_chemicals'] = as_rep(names(n, botc), d.get('rep_f'))
+    kw0 = {}
+    if topc: kw0['top_chemicals'] = as_rep(names(n, topc), d.get('rep_f'))
+    if botc: kw0['bottom_chemicals'] = as_rep(names(n, botc), d.get('rep_f'))
     if d.get('bare'):
         # the docstring form: a single forced chemical given as a bare string (phase_fraction accepts that for
         # bottom_chemicals only: fixes_proposed/C20-7.md)
-        if len(botc) == 1: kw['bottom_chemicals'] = CHEMS[botc[0]]
-        if len(topc) == 1 and not d.get('only_fraction'): kw['top_chemicals'] = CHEMS[topc[0]]
-    def call(top0, bot0, only_fraction=False):
+        if len(botc) == 1: kw0['bottom_chemicals'] = CHEMS[botc[0]]
+        if len(topc) == 1 and not d.get('only_fraction'): kw0['top_chemicals'] = CHEMS[topc[0]]
+    def call(top0, bot0, only_fraction=False, no_guess=False):
         REC.clear()
         feed, top, bottom = mk(n, feed0), mk(n, top0), mk(n, bot0)
+        # the optional `phi` argument is only a starting guess of the root finder
+        kw = dict(kw0)
+        if d.get('guess') is not None and not no_guess: kw['phi'] = float(d['guess'])
         if alias == 'top': top = feed
         elif alias == 'bottom': bottom = feed
         with warnings.catch_warnings(record=True) as wl:
@@ -411,6 +420,14 @@ def op_pt(d, o):
         return float(phi), arr(top), arr(bottom), clip, (feed0 if alias else arr(feed))
     if d.get('only_fraction'):
         phi, _, _, clip, _ = call(None, None, True)
+        if 'pf' not in REC and phi not in ('zerodiv', 'infeasible'):
+            # the phase-fraction routine was not entered: still compare with partition on the same input
+            phi_p, _, _, _, _ = call(None, None, False)
+            if phi_p in ('zerodiv', 'infeasible') or abs(phi - phi_p) > 1e-9:
+                o.fail('phase_fraction:differs-from-partition', f'phase_fraction returned {phi!r} but partition returned {phi_p!r} (K={K}, ids={ids}, topc={topc}, botc={botc})')
+            o.fail('phase_fraction:hook-not-reached', f'phase_fraction returned {phi!r} without calling the phase-fraction routine (K={K}, ids={ids})')
+            o.tags.append('pf:hook-not-reached')
+            return
         if 'pf' not in REC and phi != 'zerodiv': return
         if phi != 'zerodiv': emit_bpf(o, feed0, ids, K, topc, botc)
         line = (f'pf n={n} feed={V(feed0)} ids={NL(ids)} K={V(K)} topc={NL(topc)} botc={NL(botc)} '
@@ -426,35 +443,49 @@ def op_pt(d, o):
             o.fail('phase_fraction:differs-from-partition', f'phase_fraction gave {pf_val!r}, partition {phi_p!r} (K={K}, ids={ids}, topc={topc}, botc={botc})')
         elif pf_val != 'infeasible' and abs(pf_val - phi_p) > 1e-9:
             o.fail('phase_fraction:differs-from-partition', f'phase_fraction returned {pf_val!r} but partition returned {phi_p!r} on the same input (K={K}, ids={ids}, topc={topc}, botc={botc})')
+        if d.get('guess') is not None and pf_val != 'infeasible' and all(1e-3 <= k <= 1e3 for k in K) \
+                and not all(abs(k - 1) <= 1e-9 for i, k in zip(ids, K) if feed0[i] > 0):
+            o.tags.append('pf:with-guess')
+            phi3, _, _, _, _ = call(None, None, True, True)
+            if phi3 in ('zerodiv', 'infeasible') or abs(phi3 - pf_val) > 1e-6:
+                o.fail('phase_fraction:depends-on-guess', f'with phi={d["guess"]} as starting guess phase_fraction returns {pf_val!r}, without a guess {phi3!r} (K={K}, ids={ids})')
         if pf_val != 'infeasible' and not (0.0 <= pf_val <= 1.0):
             o.fail('phase_fraction:range', f'phase_fraction returned {pf_val!r}')
         o.tags.append('pf')
         return
     phi, t, b, clip, f_after = call(d.get('top0'), d.get('bot0'))
-    if 'pf' not in REC and phi != 'zerodiv': return
-    if phi == 'zerodiv': pass
+    hook_missing = 'pf' not in REC and phi not in ('zerodiv', 'infeasible')
+    if hook_missing:
+        # the phase-fraction routine was not entered (a fast path? a trusted caller's guess?): no model line can be formed,
+        # the missing hook is reported, and the call is judged on the real outlets by every oracle below
+        o.fail('partition:hook-not-reached', f'partition returned phi={phi!r} without calling the phase-fraction routine '
+               f'(K={K}, ids={ids}, top_chemicals={topc}, bottom_chemicals={botc})')
+        o.tags.append('pt:hook-not-reached')
+    emit = (lambda *a_: None) if hook_missing else o.emit
+    if 'pf' not in REC and phi == 'infeasible': return
+    if phi == 'zerodiv' or hook_missing: pass
     elif alias == 'bottom': emit_bpf(o)          # the feed was destroyed before the fractions were formed (C20-6)
     else: emit_bpf(o, feed0, ids, K, topc, botc)
     line = (f'pt n={n} feed={V(feed0)} bot0={V(d.get("bot0") or [])} ids={NL(ids)} K={V(K)} topc={NL(topc)} '
             f'botc={NL(botc)} phi={frac(REC.get("pf", 0.0))} strict={int(strict)}' + (f' alias={alias}' if alias else ''))
     if phi == 'zerodiv':
         # nothing to partition (F_mol = 0): numpy's 0/0 under thermosteam's error state -> FloatingPointError
-        o.emit(line, 'pt err=zerodiv'); o.tags.append('pt:empty-feed')
+        emit(line, 'pt err=zerodiv'); o.tags.append('pt:empty-feed')
         return
     if alias and not (alias == 'top' and not any(feed0[i] for i in botc)):
         # Outside what the code supports (fixes_proposed/C20-6.md): `bottom is feed` loses the feed, `top is feed` with
         # forced-bottom chemicals gives them a negative top flow.  The behaviour is mirrored by the model; the property
         # (stated for a feed distinct from the outlets) is not asserted here.
-        o.emit(line, 'pt err=infeasible' if phi == 'infeasible' else
+        emit(line, 'pt err=infeasible' if phi == 'infeasible' else
                f'pt phi={frac(phi)} top={V(t)} bot={V(b)} clip={int(clip)} kok={int(k_spread(ids, K, t, b) <= 1e-7)}')
         o.tags.append(f'pt:alias-{alias}:unsupported')
         return
     if phi == 'zerodiv':
         # nothing to partition (F_mol = 0): numpy's 0/0 under thermosteam's error state -> FloatingPointError
-        o.emit(line, 'pt err=zerodiv'); o.tags.append('pt:empty-feed')
+        emit(line, 'pt err=zerodiv'); o.tags.append('pt:empty-feed')
         return
     if phi == 'infeasible':
-        o.emit(line, 'pt err=infeasible')
+        emit(line, 'pt err=infeasible')
         if all(1e-3 <= k <= 1e3 for k in K) and all(x >= 0 for x in feed0):
             # K > 0 and a non-negative feed: the equilibrium split lies in [0, feed]; nothing is infeasible
             o.fail('partition:spurious-infeasible', f'InfeasibleRegion for a non-negative feed and positive K (K={K}, ids={ids}, feed={feed0})')
@@ -463,7 +494,7 @@ def op_pt(d, o):
     in_domain = all(1e-3 <= k <= 1e3 for k in K)
     spread = k_spread(ids, K, t, b)
     kok = int(spread <= 1e-7)
-    o.emit(line, f'pt phi={frac(phi)} top={V(t)} bot={V(b)} clip={int(clip)} kok={kok}')
+    emit(line, f'pt phi={frac(phi)} top={V(t)} bot={V(b)} clip={int(clip)} kok={kok}')
     what = f'(K={K}, ids={ids}, top_chemicals={topc}, bottom_chemicals={botc}, phi={phi})'
     if f_after != feed0:
         o.fail('partition:feed-changed', f'partition changed its feed {what}')
@@ -474,6 +505,16 @@ def op_pt(d, o):
         rs = [ka / k for ka, k, i in zip(kach, K, ids) if t[i] > 0 and b[i] > 0]
         if len(rs) >= 2 and max(abs(x / rs[0] - 1) for x in rs) > 1e-7:
             o.fail('partition:K-not-reproduced', f'partition_coefficients(IDs, top, bottom) = {kach} is not a common multiple of the given K {what}')
+    # (K <= 0: several roots, the guess may pick another; every present K = 1: the objective vanishes identically, every
+    #  phi is a root and reproduces K)
+    degenerate = all(abs(k - 1) <= 1e-9 for i, k in zip(ids, K) if feed0[i] > 0)
+    if d.get('guess') is not None and not alias and in_domain and not degenerate:
+        o.tags.append('pt:with-guess')
+        phi3, t3, b3, _, _ = call(d.get('top0'), d.get('bot0'), False, True)
+        scale = max(feed0 + [1.0])
+        if phi3 in ('zerodiv', 'infeasible') or abs(phi3 - phi) > 1e-6 or \
+                any(abs(x - y) > 1e-5 * scale for x, y in zip(t + b, t3 + b3)):
+            o.fail('partition:depends-on-guess', f'with phi={d["guess"]} as starting guess partition returns {phi!r}, top={t}; without a guess {phi3!r}, top={t3} {what}')
     if (d.get('top0') or d.get('bot0')) and not alias:
         phi2, t2, b2, _, _ = call(None, None)
         if phi2 != 'infeasible': check_stale(o, 'partition', [t, b], [t2, b2], what)
@@ -572,7 +613,18 @@ def op_lle(d, o):
     stale_holder = any(h0L) or any(h0l)
     t, b, feed, ms = call(d.get('top0'), d.get('bot0'), ms)
     im = REC.get('lle')
-    if im is None: return
+    if im is None:
+        # the equilibrium routine was not entered (a fast path?): no model line can be formed, but the call is still
+        # judged on the real streams, and the missing hook is itself reported
+        w0 = f'(efficiency={eff}, top_chemical={tc}; LLE.__call__ was not reached)'
+        check_balance(o, 'lle', feed0, [t, b], w0)
+        check_nonneg(o, 'lle', [t, b], w0)
+        if d.get('top0') or d.get('bot0'):
+            t2, b2, _, _ = call(None, None, None)
+            check_stale(o, 'lle', [t, b], [t2, b2], w0)
+        o.fail('lle:hook-not-reached', f'lle returned without entering the equilibrium routine {w0}: nothing to compare with the model')
+        o.tags.append('lle:hook-not-reached')
+        return
     ld = REC.get('lle_in', {})
     rL = [float(x) for x in im['L'].to_array()]
     rl = [float(x) for x in im['l'].to_array()]
@@ -618,7 +670,17 @@ def op_vle(d, o):
     stale_holder = any(h0g) or any(h0l)
     v, l, vp, lp, feed = call(d.get('top0'), d.get('bot0'), ms)
     im = REC.get('vle')
-    if im is None: return
+    if im is None:
+        w0 = f'({d["spec"]}; VLE.__call__ was not reached)'
+        check_balance(o, 'vle', feed0, [v, l], w0)
+        check_nonneg(o, 'vle', [v, l], w0)
+        if (vp, lp) != ('g', 'l'): o.fail('vle:phase', f'outlet phases are {(vp, lp)}, expected ("g", "l")')
+        if d.get('top0') or d.get('bot0'):
+            v2, l2, _, _, _ = call(None, None, None)
+            check_stale(o, 'vle', [v, l], [v2, l2], w0)
+        o.fail('vle:hook-not-reached', f'vle returned without entering the equilibrium routine {w0}: nothing to compare with the model')
+        o.tags.append('vle:hook-not-reached')
+        return
     ld = REC.get('vle_in', {})
     rg = [float(x) for x in im['g'].to_array()]
     rl = [float(x) for x in im['l'].to_array()]
@@ -731,11 +793,41 @@ def op_mb(d, o):
     o.tags.append('mb')
 
 
+# Generate MultiStream retentates that hold part of the moisture chemical outside the liquid phase.  The code as of
+# /repo without fixes_proposed/C20-9.md overwrites the liquid amount with the target TOTAL: the balance breaks by the
+# amount held elsewhere (signature adjust_moisture:moisture-outside-liquid:balance).  Model / oracle describe the repaired
+# behaviour; set to False to leave the class out.
+MOISTURE_OUTSIDE_LIQUID = True
 ITER_CAP = 80
 
 
 class NoConvergence(Exception):
     pass
+
+
+def mbc_float_reference(d, cap):
+    """binary64 re-implementation of the `composition` loop (used where the exact model cannot follow the floats:
+    after a shifted iteration).  Returns (new variable inlets | None when the cap is hit, iterations)."""
+    idx = d['idx']; n = d['n']
+    inlet = np.array([list(f)[:n] + [0.] * (n - len(f)) for f in d['vin']], float).T        # n x k
+    mol_out = np.array([list(f)[:n] + [0.] * (n - len(f)) for f in d['cout']], float).sum(0)
+    A = inlet[idx, :]
+    Fout = mol_out.sum()
+    f = (mol_out / Fout if Fout else mol_out)[idx]
+    g_ = np.array([list(f_)[:n] + [0.] * (n - len(f_)) for f_ in d['cin']], float).sum(0)
+    O = g_.sum() * f - g_[idx]
+    x = np.ones(len(idx)); it = 0
+    while True:
+        if it >= cap: return None, it
+        b = (inlet * x).sum() * f + O
+        xn = np.linalg.solve(A, b); it += 1
+        neg = xn < 0.
+        if neg.any(): xn = xn - xn[neg].min()
+        den = x.copy(); den[den == 0.] = 1.
+        done = not (sum(((xn - x) / den) ** 2) > 1e-6)
+        x = xn
+        if done: break
+    return [[float(v) * float(fac) for v in col] for fac, col in zip(x, inlet.T)], it
 
 
 def op_mbc(d, o):
@@ -759,6 +851,14 @@ def op_mbc(d, o):
         sep.material_balance(as_rep(names(n, idx), d.get('rep_ids')), as_rep(vin, d.get('rep')), as_rep(cin, d.get('rep')), as_rep(cout, d.get('rep')), balance='composition')
     except NoConvergence:
         o.emit(line, 'mbc err=noconv'); o.tags.append('mbc:noconv')
+        np.linalg.solve = orig
+        try:
+            ref, ref_it = mbc_float_reference(d, ITER_CAP)
+        except np.linalg.LinAlgError:
+            ref = None
+        if ref is not None:
+            o.fail('material_balance_composition:differs-from-float-reference',
+                   f'the real loop was still running after {ITER_CAP} solves; a plain binary64 re-implementation stops after {ref_it}')
         return
     except np.linalg.LinAlgError:
         o.emit(line, 'mbc err=singular'); o.tags.append('mbc:singular')
@@ -766,6 +866,15 @@ def op_mbc(d, o):
     finally:
         np.linalg.solve = orig
     new = [arr(s_) for s_ in vin]
+    # independent binary64 reference of the loop: covers the `shift-history` lines the exact model does not compare
+    try:
+        ref, ref_it = mbc_float_reference(d, ITER_CAP)
+    except np.linalg.LinAlgError:
+        ref, ref_it = None, -1
+    scale = max([abs(x) for r_ in new for x in r_ if math.isfinite(x)] + [1.0])
+    if ref is None or ref_it != len(sols) or any(abs(x - y) > 1e-9 * scale for r1, r2 in zip(new, ref) for x, y in zip(r1, r2)):
+        o.fail('material_balance_composition:differs-from-float-reference',
+               f'the call returned {new} after {len(sols)} solves; a plain binary64 re-implementation of the documented loop gives {ref} after {ref_it}')
     shift = lambda x: [v - min(w for w in x if w < 0) for v in x] if any(w < 0 for w in x) else list(x)
     shifted = any(w < 0 for w in sols[-1])
     o.emit(line, f'mbc vin={VS(new)} it={len(sols)} shift={int(shifted)}')
@@ -831,7 +940,9 @@ def run_impl(case: Case) -> ImplResult:
                 o.tags.append(f'retried:{kind}:ReferenceError')
                 OPS[kind](d, o)
         except Exception as e:
-            give_up = (external and isinstance(e, SOLVER_ERRORS)) or d.get('wild')
+            # `wild` (K <= 0) inputs may make the root finder give up numerically; nothing else is excused there
+            give_up = (external and isinstance(e, SOLVER_ERRORS)) or \
+                      (d.get('wild') and isinstance(e, (FloatingPointError, ZeroDivisionError, RuntimeError)))
             if give_up:
                 o.tags.append(f'skipped:{kind}:{type(e).__name__}')
                 if external:
@@ -1023,13 +1134,14 @@ def gen_op(rng):
         if rng.random() < 0.15: d['only_fraction'] = 1
         elif rng.random() < 0.12: d['alias'] = rng.choice(['top', 'top', 'bottom'])
         if rng.random() < 0.3: d['bare'] = 1
+        if rng.random() < 0.3: d['guess'] = rng.choice([0.0, 1.0, 0.5, rng.randrange(1, 64) / 64, rng.randrange(1, 64) / 64])
         d['rep_ids'], d['rep_f'] = rng.choice(SEQ_REPS), rng.choice(SEQ_REPS)
         if rng.random() < 0.02:      # nothing at all to partition: the code divides by F_mol = 0
             d['feed'] = [0.0 if (i in ids or i in topc or i in botc) else x for i, x in enumerate(d['feed'])]
             d['empty'] = 1
         return 'pt ' + json.dumps(d)
     if r < 0.50:                                      # mix_and_split
-        k = rng.randrange(1, 5)
+        k = rng.randrange(1, 5) if rng.random() > 0.1 else rng.randrange(5, 9)      # up to 8 inlets
         ins = [flows(rng, n, 0.3, at_least_one=rng.random() < 0.9) for _ in range(k)]
         if rng.random() < 0.25: ins.insert(rng.randrange(len(ins) + 1), [0.0] * n)      # an empty inlet somewhere
         if rng.random() < 0.3:
@@ -1046,7 +1158,7 @@ def gen_op(rng):
     if r < 0.535:                                     # mix_and_split_with_moisture_content
         n = max(n, 2)
         mode = 'mol' if rng.random() < 0.5 else 'mass'
-        ins = [flows(rng, n, 0.3) for _ in range(rng.randrange(1, 4))]
+        ins = [flows(rng, n, 0.3) for _ in range(rng.randrange(1, 4) if rng.random() > 0.1 else rng.randrange(4, 9))]
         ins[0][0] += 64.0 * rng.randrange(0, 40)          # wash water
         split = [rng.randrange(0, 9) / 64] + [rng.randrange(32, 65) / 64 for _ in range(n - 1)]
         return 'msm ' + json.dumps(dict(n=n, ins=ins, split=split, k=0, mode=mode, mc=rng.randrange(1, 61) / 64, rep=rng.choice(STREAM_REPS),
@@ -1063,7 +1175,10 @@ def gen_op(rng):
             need = dry * mc / (1 - mc) / MW[k]
             P[k] = math.ceil(max(need - R[k], 0) * 16 + 1) / 16 + dy(rng, 64, 3)
         strict = rng.choice([None, True, False, False])
-        return 'am ' + json.dumps(dict(n=n, R=R, P=P, k=k, mode=mode, mc=mc, strict=strict, multi=int(rng.random() < 0.25)))
+        d = dict(n=n, R=R, P=P, k=k, mode=mode, mc=mc, strict=strict, multi=int(rng.random() < 0.25))
+        if MOISTURE_OUTSIDE_LIQUID and d['multi'] and R[k] > 0 and rng.random() < 0.4:
+            d['k_solid'] = R[k] / 4            # a quarter of the retentate's moisture chemical sits in the solid phase
+        return 'am ' + json.dumps(d)
     if r < 0.70:                                      # lle wrapper
         n = max(n, 2)
         feed = flows(rng, n, 0.2) if rng.random() > 0.03 else [0.0] * n
@@ -1115,7 +1230,7 @@ def gen_op(rng):
             cout[0][rng.choice(other)] += 64.0 * rng.randrange(1, 9)
         return 'mbc ' + json.dumps(dict(n=n, idx=idx, vin=vin, cin=cin, cout=cout, rep=rng.choice(SEQ_REPS), rep_ids=rng.choice(SEQ_REPS)))
     # material_balance
-    k = rng.randrange(1, min(n, 4) + 1)
+    k = rng.randrange(1, min(n, 4) + 1) if rng.random() > 0.15 else rng.randrange(1, n + 1)        # up to 6 variable inlets
     idx = rng.sample(range(n), k)
     vin = []
     style = rng.random()
@@ -1135,8 +1250,9 @@ def gen_op(rng):
         M = [[Fr(v[c]) for v in vin] for c in idx]
         det = _det(M)
         if det != 0 and abs(det) < 1: vin[0][idx[0]] += 8.0
-    cin = [flows(rng, n, 0.4, at_least_one=False) for _ in range(rng.randrange(0, 3))]
-    cout = [flows(rng, n, 0.3) for _ in range(rng.randrange(1, 3))]
+    many = rng.random() < 0.15                                   # 3-7 constant streams now and then
+    cin = [flows(rng, n, 0.4, at_least_one=False) for _ in range(rng.randrange(3, 8) if many else rng.randrange(0, 3))]
+    cout = [flows(rng, n, 0.3) for _ in range(rng.randrange(3, 8) if many else rng.randrange(1, 3))]
     return 'mb ' + json.dumps(dict(n=n, idx=idx, vin=vin, cin=cin, cout=cout, rep=rng.choice(SEQ_REPS), rep_ids=rng.choice(SEQ_REPS)))
 
 
